@@ -42,6 +42,52 @@ def tlc(build, v, name, c, dump=False, expect_fail=False, workers=None):
     return res
 
 
+def walk_interior(build, v, tier):
+    """LookupWalk.tla: the interior of the uncached walk interrupted by
+    one complete mutation at any container access; TLC checks the mechanism
+    (copy-on-write extendor lists) against 'before or after', refutes the
+    in-place variant, and every initial state becomes a case that is
+    injected into the real walk at every access in turn."""
+    c = {'ExtInPlace': 'FALSE', 'Kinds': '<-BothKinds'}
+    cfg = make_cfg(build.dir, 'lw', c,
+                   invariants=['TypeOK', 'BeforeOrAfter', 'DumpCase'])
+    res = run_tlc('MC_LookupWalk', cfg, scratch=build.dir, timeout=1200)
+    v.add_tlc(res, 'walk interior: one mutation at any container access')
+    if res.violated:
+        raise MachineryError('model-level violation of %s in LookupWalk:\n%s'
+                             % (res.violated, '\n'.join(res.trace[:40])))
+    cfg = make_cfg(build.dir, 'lwx', dict(c, ExtInPlace='TRUE'),
+                   invariants=['BeforeOrAfter'])
+    bad = run_tlc('MC_LookupWalk', cfg, scratch=build.dir, timeout=1200)
+    v.add_tlc(bad, 'self-test: extendor lists shrunk in place')
+    if bad.violated != 'BeforeOrAfter':
+        raise MachineryError('self-test: with ExtInPlace=TRUE TLC must refute '
+                             'BeforeOrAfter, got %r' % (bad.violated,))
+    cases = res.lines
+    if tier == 'quick' and len(cases) > 1500:
+        import random
+        cases = random.Random(seed()).sample(cases, 1500)
+    jobs = []
+    for implv in ('c', 'py'):
+        for flav in ('push', 'verify'):
+            for sh in shard(cases, max(1, NCPU // 4)):
+                jobs.append((implv, {'flavour': flav, 'cases': sh}))
+    for (implv, job), r in zip(jobs, run_children(
+            build, 'replay_lookupwalk.py', jobs)):
+        if 'crash' in r:
+            v.violation('C11 walk-interior replay crashed with signal %s '
+                        '(%s)' % (r['crash'], implv), r)
+            continue
+        v.cov['evaluations'] += r['evaluations']
+        for m in r['mismatches']:
+            v.violation('C11 %s %s %s expected=%s got=%s ctx=%s' % (
+                m['impl'], job['flavour'], m['what'],
+                json.dumps(m['expected']), json.dumps(m['got']),
+                json.dumps(m['ctx'], sort_keys=True)), m)
+    v.cov['traces_validated_against_impl'] += 4 * len(cases)
+    v.notes['walk_interior_cases'] = len(cases)
+
+
 def main(pid, tier):
     v = Verdict(pid, tier)
     v.cov['rule'] = (
@@ -158,6 +204,7 @@ def main(pid, tier):
         v.notes['ownership_audits'] = aud
         v.notes['unaudited_probes'] = unaud
         v.sample({'schedule': cases[len(cases) // 2]})
+        walk_interior(build, v, tier)
         # real threads
         secs = 4 if tier == 'quick' else 45
         tjobs = []
